@@ -86,6 +86,8 @@ class SchedRun:
             s.out = box
         else:
             s.out = net.sink()
+        if cfg.get("noout"):
+            s.out = None          # not connected (yet): what is transmitted goes nowhere, the books are kept all the same
         if cfg.get("twin"):
             # same class ids, other weights / priorities, declared in the opposite order
             t2 = build(env, dict(cfg, table=[[k, w * 3 + 1] for k, w in reversed(cfg["table"])]))
